@@ -3,8 +3,8 @@ from ..absint import Machine, State, Int, Adt, Atom, BeBytes, Slice, Ref, Abort,
 from .. import load, tables, mir, l1, prims, oracle
 from . import acc
 
-TOKEN = "minicbor::data::token::Token<'b>"
-TDEC = "<%s as minicbor::decode::Decode<'b, C>>::decode" % TOKEN
+TOKEN = "minicbor::data::token::Token<'_>"
+TDEC = "<%s as minicbor::decode::Decode<'_, C>>::decode" % TOKEN
 TENC = "<%s as minicbor::encode::Encode<C>>::encode" % TOKEN
 ONE_BYTE = {0x5f: 'BeginBytes', 0x7f: 'BeginString', 0x9f: 'BeginArray', 0xbf: 'BeginMap', 0xf6: 'Null', 0xf7: 'Undefined', 0xff: 'Break'}
 HALF_RT = 'f16::to_bits(f16::from_f32(f16::to_f32(f16::from_bits(%s))))'
@@ -156,7 +156,7 @@ def tokenizer_rules(ctx, prog):
     from ..absint import Fork
     from ..prims import ok, err
     ctx.rules_run.append('T-TOKENIZER: Tokenizer::token interpreted for owned and borrowed decoders x decode() Ok/Err: every error return leaves the position at input().len(), success never moves it; next() maps exactly the end-of-input class to None')
-    tok = prog.one("minicbor::decode::tokenizer::Tokenizer::<'a, 'b>::token")
+    tok = prog.one("minicbor::decode::tokenizer::Tokenizer::<'_, '_>::token")
     if tok is None:
         ctx.fail_closed('T-TOKENIZER', 'Tokenizer::token not found')
     else:
@@ -202,7 +202,7 @@ def tokenizer_rules(ctx, prog):
                                   % (ch, 'position %r' % (end,) if sets else 'the position where decoding stopped'), where)
         if outs is not None and len(kinds) < 2:
             ctx.fail_closed('T-TOKENIZER', 'expected paths for an owned and a borrowed decoder, found %r' % sorted(kinds))
-    nxt = prog.one("<minicbor::decode::tokenizer::Tokenizer<'a, 'b> as std::iter::Iterator>::next")
+    nxt = prog.one("<minicbor::decode::tokenizer::Tokenizer<'_, '_> as std::iter::Iterator>::next")
     if nxt is None:
         ctx.fail_closed('T-TOKENIZER', 'Tokenizer::next not found')
     else:
